@@ -7,7 +7,8 @@ From Coq Require Import Qabs.
 Inductive layer : Type :=
 | LMutex
 | LTr (pi swaps : clayout)                                            (* transpiling wrapper; layout pi, routing swaps *)
-| LBatch (before after : list (ccirc * cobs * cparams)).             (* pubs of the callers that entered before / after *)
+| LBatch (before after : list (ccirc * cobs * cparams * Z)).         (* pubs of the callers that entered before / after:
+                                                                         circuit, their observable (estimator), parameters, THEIR shots (sampler) *)
 
 Inductive ekind : Type :=
 | KOpSampler (ob : cobs) (alpha : Q) (shots : Z)
@@ -21,19 +22,20 @@ Record c03case : Type := mkcase {
   c_expected : result (list Q)  (* what the implementation returned *)
 }.
 
-Definition sstack (shots : Z) (ls : list layer) : stack ccirc clayout (spub ccirc cparams cwiring) :=
+Definition sstack (ls : list layer) : stack ccirc clayout (spub ccirc cparams cwiring) :=
   fold_right (fun l s => match l with
                          | LMutex => SMutex s
                          | LTr pi sw => STranspile (pm_route pi sw) s
                          | LBatch b a =>
-                             let mk := map (fun cop : ccirc * cobs * cparams => (measure_all cwid (fst (fst cop)), snd cop, shots)) in
+                             let mk := map (fun cops : ccirc * cobs * cparams * Z =>
+                                             (measure_all cwid (fst (fst (fst cops))), snd (fst cops), snd cops)) in
                              SBatch (mk b) (mk a) s
                          end) SRaw ls.
 Definition estack (ls : list layer) : stack ccirc clayout (epub ccirc cobs cparams) :=
   fold_right (fun l s => match l with
                          | LMutex => SMutex s
                          | LTr pi sw => STranspile (pm_route pi sw) s
-                         | LBatch b a => SBatch b a s
+                         | LBatch b a => SBatch (map fst b) (map fst a) s
                          end) SRaw ls.
 
 Definition raw_sampler : sprim ccirc cparams cwiring coutcome := pointwise (ideal_sampler1 csem cread ccounts_of).
@@ -42,10 +44,10 @@ Definition raw_estimator : eprim ccirc cobs cparams := pointwise (ideal_estimato
 Definition model_run (c : c03case) : result (list Q) :=
   match c_kind c with
   | KOpSampler ob alpha shots =>
-      eval_operator_sampler ccompose cwid cagg_op (wrap_sampler cwmap (sstack shots (c_layers c)) raw_sampler)
+      eval_operator_sampler ccompose cwid cagg_op (wrap_sampler cwmap (sstack (c_layers c)) raw_sampler)
                             shots ob alpha (c_init c) (c_circuits c) (c_pvals c)
   | KBits f alpha shots =>
-      eval_bitstring ccompose cwid cagg_bits (wrap_sampler cwmap (sstack shots (c_layers c)) raw_sampler)
+      eval_bitstring ccompose cwid cagg_bits (wrap_sampler cwmap (sstack (c_layers c)) raw_sampler)
                      shots f alpha (c_init c) (c_circuits c) (c_pvals c)
   | KEst ob =>
       eval_estimator ccompose (wrap_estimator crelabel (c_legacy c) (estack (c_layers c)) raw_estimator)
